@@ -123,9 +123,19 @@ Definition shuffle_top (kvs : list (string * json)) : list (string * json) :=
 Definition serialise_token (jwt : string) (ds : list disc) : string :=
   fold_left (fun acc d => acc ++ "~" ++ d_str d) ds jwt ++ "~".
 
+(* reject_reserved_names (repair F19): _sd and ... as member names at any depth, _sd_alg at the top level *)
+Fixpoint has_reserved (top : bool) (j : json) : bool :=
+  match j with
+  | JObj kvs => existsb (fun kv : string * json => let '(k, v) := kv in
+                           String.eqb k "_sd" || String.eqb k "..." || (top && String.eqb k "_sd_alg") || has_reserved false v) kvs
+  | JArr xs => existsb (has_reserved false) xs
+  | _ => false
+  end.
+
 (* Issuer::encode. max_decoys = the argument of .decoy(), if called; cnf = the holder JWK, if required *)
 Definition issue (claims : json) (paths : list string) (max_decoys : option Z) (cnf : option json) (header : json)
   : out (string * json * list disc) :=
+  if has_reserved true claims then Fail else
   dO cd <- of_res (issue_fold claims paths (ie_salts E));
   let '(c1, ds) := cd in
   match c1 with
